@@ -140,18 +140,26 @@ def register_json_ops():
 
 def main():
     register_json_ops()
+    # the budget of a case is CPU time of this process (ITIMER_PROF), so that a loaded machine does not turn a slow run
+    # into a timeout; wall-clock time is only a backstop (a case that sleeps or waits), eight times as long
     signal.signal(signal.SIGALRM, _alarm)
+    signal.signal(signal.SIGPROF, _alarm)
     per_case = float(os.environ.get("VERIF_CASE_TIMEOUT", "20"))
     out = sys.stdout
+
+    def arm(seconds):
+        signal.setitimer(signal.ITIMER_PROF, seconds)
+        signal.setitimer(signal.ITIMER_REAL, 8 * seconds)
+
     for line in sys.stdin:
         line = line.rstrip("\n")
         try:
-            signal.setitimer(signal.ITIMER_REAL, per_case)
+            arm(per_case)
             if line.startswith("J "):
                 req = json.loads(line[2:])
                 if req.get("budget"):
                     # a bound proportional to the size of the case, computed by the caller
-                    signal.setitimer(signal.ITIMER_REAL, max(per_case, float(req["budget"])))
+                    arm(max(per_case, float(req["budget"])))
                 ans = "J " + json.dumps(JOPS[req["op"]](req), sort_keys=True)
             else:
                 tok = line.split()
@@ -162,6 +170,7 @@ def main():
             ans = "Crash " + json.dumps({"type": type(e).__name__, "msg": str(e)[:300],
                                           "tb": traceback.format_exc()[-1500:]})
         finally:
+            signal.setitimer(signal.ITIMER_PROF, 0)
             signal.setitimer(signal.ITIMER_REAL, 0)
         out.write(ans + "\n")
     out.flush()
